@@ -257,6 +257,10 @@ RULE = ("2-4 runs of one workflow instance with num_concurrent_runs 1..3 (and un
         "limit were garbage-collected (address reuse is reported in the evidence) x all start/finish interleavings; the number of "
         "runs executing steps is checked in every quiescent state, every non-cancelled run must execute, a second "
         "instance must never wait; non-trivial = at least one schedule deviation")
+from vmc.tables import _ROUND6 as _R6  # noqa: E402
+
+RULE += _R6["C30"]
+
 
 
 def run(tier: str, seed: int) -> Any:
